@@ -126,7 +126,6 @@ structure GcSub (m0 m : Mgr) : Prop where
   sub : ∀ k x, m.tbl.node? k = some x → m0.tbl.node? k = some x
   vars : m.tbl.vars = m0.tbl.vars
   l2v : m.tbl.l2v = m0.tbl.l2v
-  cache : m.cache = m0.cache
   lastLen : m.lastLen = m0.lastLen
   ctx : m.ctx = m0.ctx
   fireIn : m.fireIn = m0.fireIn
@@ -143,7 +142,7 @@ structure GcSub (m0 m : Mgr) : Prop where
   size : m.tbl.succ.size ≤ m0.tbl.succ.size
 
 theorem GcSub.refl (m : Mgr) : GcSub m m := by
-  refine ⟨fun _ _ h => h, rfl, rfl, rfl, rfl, rfl, rfl, rfl, rfl, fun _ _ => rfl, ?_, Nat.le_refl _, ?_,
+  refine ⟨fun _ _ h => h, rfl, rfl, rfl, rfl, rfl, rfl, rfl, fun _ _ => rfl, ?_, Nat.le_refl _, ?_,
     Or.inl rfl, Nat.le_refl _⟩
   · intro k x h1 h2; rw [h1] at h2; cases h2
   · intro k x h1 h2; rw [h1] at h2; cases h2
@@ -152,7 +151,7 @@ theorem GcSub.step {m0 m m' : Mgr} {ext : Nat → Nat} {u : Nat} {n : Nd} {work 
     (hs : GcSub m0 m) (hp : GcStepPost m ext u n work m' work') : GcSub m0 m' := by
   have hn0 : m0.tbl.node? u = some n := hs.sub _ _ hp.removed.new
   refine ⟨fun k x h => hs.sub k x (hp.sub k x h), hp.vars.trans hs.vars, hp.l2v.trans hs.l2v,
-    hp.cache.trans hs.cache, hp.lastLen.trans hs.lastLen, hp.ctx.trans hs.ctx, hp.fireIn.trans hs.fireIn,
+    hp.lastLen.trans hs.lastLen, hp.ctx.trans hs.ctx, hp.fireIn.trans hs.fireIn,
     hp.sched.trans hs.sched, hp.roots.trans hs.roots, ?_, ?_, ?_, ?_, ?_, ?_⟩
   · intro key hall
     rw [hp.pred key]
@@ -197,7 +196,7 @@ theorem GcSub.step {m0 m m' : Mgr} {ext : Nat → Nat} {u : Nat} {n : Nd} {work 
 
 theorem GcSub.trans {a b c : Mgr} (h1 : GcSub a b) (h2 : GcSub b c) (ha : InvS a) : GcSub a c := by
   refine ⟨fun k x h => h1.sub k x (h2.sub k x h), h2.vars.trans h1.vars, h2.l2v.trans h1.l2v,
-    h2.cache.trans h1.cache, h2.lastLen.trans h1.lastLen, h2.ctx.trans h1.ctx, h2.fireIn.trans h1.fireIn,
+    h2.lastLen.trans h1.lastLen, h2.ctx.trans h1.ctx, h2.fireIn.trans h1.fireIn,
     h2.sched.trans h1.sched, h2.roots.trans h1.roots, ?_, ?_, ?_, ?_, ?_, ?_⟩
   · intro key hall
     rw [h2.predKeep key, h1.predKeep key]
@@ -247,18 +246,18 @@ inductive GcRun : Mgr → List Nat → Mgr → Prop
 worklist) leaves no node with count 0 -/
 theorem GcRun.spec {m mf : Mgr} {work : List Nat} (hrun : GcRun m work mf) :
     ∀ {ext : Nat → Nat}, GcInv m ext work →
-      GcInv mf ext [] ∧ GcSub m mf ∧ (GcComplete m work → ∀ k : Nat, mf.ref[k]? ≠ some 0) := by
+      GcInv mf ext [] ∧ GcSub m mf ∧ mf.cache = m.cache ∧ (GcComplete m work → ∀ k : Nat, mf.ref[k]? ≠ some 0) := by
   induction hrun with
   | done m =>
     intro ext hi
-    exact ⟨hi, GcSub.refl m, fun hc k hk => by simpa using hc k hk⟩
+    exact ⟨hi, GcSub.refl m, rfl, fun hc k hk => by simpa using hc k hk⟩
   | @step m m' mf work work' u hu hstep _ ih =>
     intro ext hi
     obtain ⟨n, m1, work1, hn, hrun1, hp, hi1, hc1⟩ := hi.step hu
     rw [hstep] at hrun1
     cases hrun1
-    obtain ⟨h1, h2, h3⟩ := ih hi1
-    refine ⟨h1, ?_, fun hc => h3 (hc1 hc)⟩
+    obtain ⟨h1, h2, hca, h3⟩ := ih hi1
+    refine ⟨h1, ?_, hca.trans hp.cache, fun hc => h3 (hc1 hc)⟩
     -- compose: m ⊇ m' ⊇ mf
     have hs1 : GcSub m m' := (GcSub.refl m).step hp
     exact GcSub.trans hs1 h2 hi.invS
